@@ -88,9 +88,11 @@ func hopByHopHeaders(respHeader http.Header) map[string]struct{} {
 		"Proxy-Authorization":       {},
 		// Also see net/http/response.go "respExcludeHeader" for additional excluded headers.
 	}
-	// Fields listed in the Connection header field
-	for field := range TrimmedCSVCanonicalSeq(respHeader.Get("Connection")) {
-		m[field] = struct{}{}
+	// Fields listed in the Connection header field (all of its field lines)
+	for _, line := range respHeader.Values("Connection") {
+		for field := range TrimmedCSVCanonicalSeq(line) {
+			m[field] = struct{}{}
+		}
 	}
 	return m
 }
